@@ -99,11 +99,11 @@ func runC04(r *R) {
 				continue
 			}
 			gl, _ := Guard(fn, lock.(ssa.Instruction), in, ErrNilC(lock))
-			okLock := gl && lock.Block().Dominates(in.Block()) && flockHeldAt(fn, lock, in)
+			okLock := gl && Precedes(lock, in) && flockHeldAt(fn, lock, in)
 			// fresh Stat after lock
 			var stat ssa.CallInstruction
 			for _, s := range CallsIn(fn, owsT+".Stat", "os.Stat", "os.Lstat") {
-				if Canon(CallArgs(s.Common())[0]) == pc && Before(lock.(ssa.Instruction), s.(ssa.Instruction)) && s.Block().Dominates(in.Block()) {
+				if Canon(CallArgs(s.Common())[0]) == pc && Before(lock.(ssa.Instruction), s.(ssa.Instruction)) && Precedes(s, in) {
 					stat = s
 				}
 			}
@@ -143,7 +143,7 @@ func runC04(r *R) {
 			ok := pc == bpLoc && lock != nil && isTimeNow(a[1]) && isTimeNow(a[2])
 			if ok {
 				g, _ := Guard(fn, lock.(ssa.Instruction), ch.(ssa.Instruction), ErrNilC(lock))
-				ok = g && lock.Block().Dominates(ch.Block()) && flockHeldAt(fn, lock, ch.(ssa.Instruction))
+				ok = g && Precedes(lock, ch) && flockHeldAt(fn, lock, ch.(ssa.Instruction))
 			}
 			gro, _ := Guard(fn, nil, ch.(ssa.Instruction), FalseC("ReadOnly", FieldVP("sdk/go/arvados.Volume", "ReadOnly", nil)))
 			r.Check(ok && gro, "C04-R3", fn, "os.Chtimes(p, now, now)", ch.Pos(), "by path, under flock(OpenFile(p)), time.Now()", "timestamp update is not by-path under the file lock with the current time")
@@ -172,7 +172,7 @@ func runC04(r *R) {
 			vol := rootBase(CallRecv(t.Common()))
 			var mt ssa.CallInstruction
 			for _, m := range CallsMatching(fn, func(n string, c *ssa.CallCommon) bool { return w.IsMethodOfIface(c, ks+".Volume", "Mtime") }) {
-				if same(rootBase(CallRecv(m.Common())), vol) && m.Block().Dominates(in.Block()) {
+				if same(rootBase(CallRecv(m.Common())), vol) && Precedes(m, in) {
 					mt = m
 				}
 			}
@@ -263,7 +263,7 @@ func runC04(r *R) {
 					c, ok := Resolve1(v).(*ssa.Call)
 					return ok && CalleeName(c.Common()) == "(time.Time).Unix" && isTimeNow(c.Call.Args[0])
 				}, ResultVP(pi, 0)))
-				r.Check(g3 && gE && gD && fsm.Block().Dominates(in.Block()) && pi.Block().Dominates(in.Block()), "C04-R6", f, "call Remove(path)", t.Pos(),
+				r.Check(g3 && gE && gD && Precedes(fsm, in) && Precedes(pi, in), "C04-R6", f, "call Remove(path)", t.Pos(),
 					"guarded by 3-group trash-name match, ParseInt ok, NOT deadline>now", "trash removal not guarded by (match="+boolS(g3)+" parse="+boolS(gE)+" deadline="+boolS(gD)+")")
 			}
 		}
@@ -332,7 +332,7 @@ func runC04(r *R) {
 					okTs := false
 					for _, ch := range CallsIn(fn, "os.Chtimes") {
 						ca := ch.Common().Args
-						if Canon(ca[0]) == Canon(src) && isTimeNow(ca[1]) && isTimeNow(ca[2]) && ch.Block().Dominates(in.Block()) && Before(ch.(ssa.Instruction), in) {
+						if Canon(ca[0]) == Canon(src) && isTimeNow(ca[1]) && isTimeNow(ca[2]) && Precedes(ch, in) && Before(ch.(ssa.Instruction), in) {
 							g, _ := Guard(fn, ch.(ssa.Instruction), in, ErrNilC(ch))
 							okTs = okTs || g
 						}
